@@ -11,6 +11,7 @@ variable (mm : MM)
 reflexive and transitive; declared defaults conform. -/
 structure MM.WFT (mm : MM) : Prop where
   opp_type : ∀ f g c, (mm.feat f).opp = some g → mm.sub c (mm.feat f).owner = true → mm.sub c (mm.feat g).tcls = true
+  opp_range : ∀ f g, (mm.feat f).opp = some g → g < mm.nFeat
   dflt_ok  : ∀ f d, (mm.feat f).dflt = some d → conformsDt (mm.feat f).tdt d = true
 
 def Adds (s s' : St) (x : Oid) (f : Fid) (ys : List Oid) : Prop :=
@@ -242,19 +243,19 @@ theorem stepRef_frame (s : St) (x f op) : Frame s (stepRef mm s x f op).1 := by
     | exact (unlinkRaw_frame mm s _ _ _).trans (link_frame mm _ _ _ _ _)
 
 theorem typedR_of_adds (hwft : mm.WFT) (s s' : St) (x f ys)
-    (ht : ∀ a f' b, b ∈ s.rs a f' → b < s.nObj ∧ mm.sub (s.cls b) (mm.feat f').tcls = true)
+    (ht : ∀ a f' b, b ∈ s.rs a f' → (a < s.nObj ∧ f' < mm.nFeat) ∧ b < s.nObj ∧ mm.sub (s.cls b) (mm.feat f').tcls = true)
     (ha : Adds mm s s' x f ys) (hf : Frame s s')
     (hx : hasFeat mm s x f = true)
     (hys : ∀ y, y ∈ ys → y < s.nObj ∧ mm.sub (s.cls y) (mm.feat f).tcls = true) :
-    ∀ a f' b, b ∈ s'.rs a f' → b < s'.nObj ∧ mm.sub (s'.cls b) (mm.feat f').tcls = true := by
+    ∀ a f' b, b ∈ s'.rs a f' → (a < s'.nObj ∧ f' < mm.nFeat) ∧ b < s'.nObj ∧ mm.sub (s'.cls b) (mm.feat f').tcls = true := by
   intro a f' b hb
   rw [hf.1, hf.2.1]
+  simp only [hasFeat, Bool.and_eq_true, decide_eq_true_eq] at hx
   rcases ha a f' b hb with h | h | h
   · exact ht a f' b h
-  · obtain ⟨rfl, rfl, hm⟩ := h; exact hys b hm
-  · obtain ⟨hopp, rfl, _⟩ := h
-    simp only [hasFeat, Bool.and_eq_true, decide_eq_true_eq] at hx
-    exact ⟨hx.1.1, hwft.opp_type f f' _ hopp hx.2⟩
+  · obtain ⟨rfl, rfl, hm⟩ := h; exact ⟨⟨hx.1.1, hx.1.2⟩, hys b hm⟩
+  · obtain ⟨hopp, rfl, hm⟩ := h
+    exact ⟨⟨(hys a hm).1, hwft.opp_range f f' hopp⟩, hx.1.1, hwft.opp_type f f' _ hopp hx.2⟩
 
 end Store
 
@@ -469,9 +470,9 @@ theorem typed_step (hwf : mm.WF) (hwft : mm.WFT) (s : St) (ht : Typed mm s) (op 
     refine ⟨?_, ?_⟩
     · intro a f b hb
       have := ht.1 a f b hb
-      refine ⟨Nat.lt_succ_of_lt this.1, ?_⟩
-      have hne : b ≠ s.nObj := Nat.ne_of_lt this.1
-      simp only [hne, if_false]; exact this.2
+      refine ⟨⟨Nat.lt_succ_of_lt this.1.1, this.1.2⟩, Nat.lt_succ_of_lt this.2.1, ?_⟩
+      have hne : b ≠ s.nObj := Nat.ne_of_lt this.2.1
+      simp only [hne, if_false]; exact this.2.2
     · intro a f v hv hnr
       simp only at hv
       split at hv
